@@ -268,3 +268,164 @@ func replaceOpcode(s []byte, from, to byte) []byte {
 	}
 	return out
 }
+
+// ---------- targeted families (added after seeded changes showed what random generation misses) ----------
+
+// BigNums: numeric operands around every integer-width boundary (post-Genesis big numbers).
+var BigNums = [][]byte{
+	NumEnc(0x7fffffff), NumEnc(0x80000000), NumEnc(0xffffffff), NumEnc(0x100000000), NumEnc(-0x80000000), NumEnc(-0x80000001),
+	NumEnc(0x7fffffffffffffff), NumEnc(-0x7fffffffffffffff),
+	{0, 0, 0, 0, 0, 0, 0, 0x80, 0x00},                      // 2^63
+	{1, 0, 0, 0, 0, 0, 0, 0x80, 0x00},                      // 2^63+1
+	{0xff, 0xff, 0xff, 0xff, 0xff, 0xff, 0xff, 0xff, 0x00}, // 2^64-1
+	{0, 0, 0, 0, 0, 0, 0, 0, 0x01},                         // 2^64
+	{1, 0, 0, 0, 0, 0, 0, 0, 0x01},                         // 2^64+1
+	{2, 0, 0, 0, 0, 0, 0, 0, 0x01},                         // 2^64+2
+	{0, 0, 0, 0, 0, 0, 0, 0x80, 0x01},                      // 2^64+2^63
+	{2, 0, 0, 0, 0, 0, 0, 0, 0, 0x01},                      // 2^72+2
+	{0, 0, 0, 0, 0, 0, 0, 0x80, 0x80},                      // -2^63
+	{0, 0, 0, 0, 0, 0, 0, 0, 0x81},                         // -2^64
+	{1, 0, 0, 0, 0, 0, 0, 0, 0x81},                         // -(2^64+1)
+}
+
+// BigNumSweep: every opcode whose numeric operand is an index, a position, a size or a count,
+// with operands that only differ from small ones beyond 32 / 63 / 64 bits.
+func BigNumSweep(emit func(*Program)) {
+	item := []byte{0x61, 0x62, 0x63}
+	for _, n := range BigNums {
+		progs := [][]byte{
+			catb(Push(item), Push(n), []byte{0x7f}),                                                        // SPLIT
+			catb(Push([]byte{5}), Push([]byte{6}), Push([]byte{7}), Push(n), []byte{0x79}),                 // PICK
+			catb(Push([]byte{5}), Push([]byte{6}), Push([]byte{7}), Push(n), []byte{0x7a}),                 // ROLL
+			catb(Push(item), Push(n), []byte{0x98}),                                                        // LSHIFT
+			catb(Push(item), Push(n), []byte{0x99}),                                                        // RSHIFT
+			catb(Push(n), []byte{0x8b}), catb(Push(n), []byte{0x8f}), catb(Push(n), Push(n), []byte{0x95}), // 1ADD NEGATE MUL
+			catb(Push(n), Push([]byte{3}), []byte{0x96}), catb(Push(n), Push([]byte{3}), []byte{0x97}), // DIV MOD
+			catb(Push(n), Push(n), []byte{0x9c}), catb(Push([]byte{1}), Push([]byte{0}), Push(n), []byte{0xa5}), // NUMEQUAL WITHIN
+			catb(Push(n), []byte{0x63, 0x51, 0x67, 0x52, 0x68}), // IF
+		}
+		for _, lock := range progs {
+			for _, fl := range []uint32{FGenesis, FGenesis | FMinimalData, 0} {
+				emit((&Program{Unlock: []byte{}, Lock: catb(lock, []byte{0x74, 0x75, 0x51}), Flags: fl, Kind: "bignum"}).Fix())
+			}
+		}
+	}
+}
+
+func catb(parts ...[]byte) []byte {
+	var out []byte
+	for _, p := range parts {
+		out = append(out, p...)
+	}
+	return out
+}
+
+// flow-control alphabet
+var flowSyms = [][]byte{{0x00}, {0x51}, {0x52}, {0x63}, {0x64}, {0x67}, {0x68}, {0x6a}, {0x61}, {0x65}, {0x66}, {0x75}, {0x76}, {0x8d}, {0xba}, {0x69}}
+
+// Flow: programs over the flow-control alphabet only (IF/NOTIF/ELSE/ENDIF/RETURN/VERIF/VERNOTIF,
+// small pushes, a few harmless and a few illegal opcodes), split between unlocking and locking script
+// at a random point, both eras: conditional state must not leak between scripts or branches.
+func Flow(r *common.Rand) *Program {
+	n := 2 + r.Intn(9)
+	var ops [][]byte
+	depth := 0
+	for i := 0; i < n; i++ {
+		switch k := r.Intn(100); {
+		case k < 22:
+			ops = append(ops, flowSyms[r.Intn(3)])
+		case k < 40:
+			ops = append(ops, flowSyms[3+r.Intn(2)])
+			depth++
+		case k < 50 && depth > 0:
+			ops = append(ops, flowSyms[5])
+		case k < 66 && depth > 0:
+			ops = append(ops, flowSyms[6])
+			depth--
+		case k < 80:
+			ops = append(ops, flowSyms[7])
+		default:
+			ops = append(ops, flowSyms[r.Intn(len(flowSyms))])
+		}
+	}
+	for ; depth > 0 && r.Chance(85); depth-- {
+		ops = append(ops, flowSyms[6])
+	}
+	cut := r.Intn(len(ops) + 1)
+	p := &Program{Kind: "flow"}
+	for i, o := range ops {
+		if i < cut {
+			p.Unlock = append(p.Unlock, o...)
+		} else {
+			p.Lock = append(p.Lock, o...)
+		}
+	}
+	if r.Chance(50) {
+		p.Lock = append(p.Lock, [][]byte{{0x51}, {0x75, 0x00}, {0x75, 0x51}, {0xba}, {0x00}}[r.Intn(5)]...)
+	}
+	if r.Chance(65) {
+		p.Flags |= FGenesis
+	}
+	if r.Chance(15) {
+		p.Flags |= FMinimalIf
+	}
+	if r.Chance(10) {
+		p.Flags |= FCleanStack | FBip16
+	}
+	return p.Fix()
+}
+
+// Limits: programs sitting on each pre-Genesis limit (op count with executed and skipped opcodes,
+// stack depth, element size, script size, number length) and the same shapes after Genesis.
+func Limits(emit func(*Program), deep bool) {
+	rep := func(b byte, n int) []byte {
+		out := make([]byte, n)
+		for i := range out {
+			out[i] = b
+		}
+		return out
+	}
+	for _, fl := range []uint32{0, FGenesis} {
+		for _, n := range []int{498, 499, 500, 501, 700} {
+			// n NOPs executed, then 1
+			emit((&Program{Unlock: []byte{}, Lock: catb(rep(0x61, n), []byte{0x51}), Flags: fl, Kind: "limit-ops"}).Fix())
+			// n NOPs in a skipped branch: 0 IF NOP*n ENDIF 1  (IF and ENDIF count too)
+			emit((&Program{Unlock: []byte{0x00}, Lock: catb([]byte{0x63}, rep(0x61, n), []byte{0x68, 0x51}), Flags: fl, Kind: "limit-ops-skipped"}).Fix())
+			// in the ELSE branch not taken
+			emit((&Program{Unlock: []byte{0x51}, Lock: catb([]byte{0x63, 0x51, 0x67}, rep(0x61, n), []byte{0x68}), Flags: fl, Kind: "limit-ops-skipped"}).Fix())
+		}
+		for _, n := range []int{998, 999, 1000, 1001} {
+			if !deep {
+				break // 1000-deep stacks make megabytes of snapshots: thorough tier only
+			}
+			// stack depth: n pushes of 1, then drop everything but one via 2DROP pairs is long: just leave them
+			emit((&Program{Unlock: []byte{}, Lock: rep(0x51, n), Flags: fl, Kind: "limit-stack"}).Fix())
+			// data + alt stack combined
+			emit((&Program{Unlock: []byte{}, Lock: catb(rep(0x51, n-500), rep2([]byte{0x51, 0x6b}, 499), []byte{0x51}), Flags: fl, Kind: "limit-stack-alt"}).Fix())
+		}
+		for _, n := range []int{519, 520, 521} {
+			emit((&Program{Unlock: []byte{}, Lock: catb(Push(rep(0x11, n)), []byte{0x82, 0x75, 0x75, 0x51}), Flags: fl, Kind: "limit-element"}).Fix())
+			emit((&Program{Unlock: []byte{}, Lock: catb(Push(rep(0x11, n-300)), Push(rep(0x22, 300)), []byte{0x7e, 0x75, 0x51}), Flags: fl, Kind: "limit-element-cat"}).Fix())
+			emit((&Program{Unlock: []byte{}, Lock: catb(Push([]byte{0x05}), Push(NumEnc(int64(n))), []byte{0x80, 0x75, 0x51}), Flags: fl &^ FGenesis, Kind: "limit-element-num2bin"}).Fix())
+		}
+		for _, n := range []int{9999, 10000, 10001} {
+			if !deep && fl != 0 {
+				continue // after Genesis the 10 000 pushes all execute: thorough tier only
+			}
+			emit((&Program{Unlock: []byte{}, Lock: catb([]byte{0x51, 0x00, 0x63}, rep(0x51, n-5), []byte{0x68}), Flags: fl, Kind: "limit-script-size"}).Fix())
+			emit((&Program{Unlock: catb(rep(0x51, n-1), []byte{0x51}), Lock: []byte{0x00, 0x63, 0x68, 0x51}, Flags: fl, Kind: "limit-script-size"}).Fix())
+		}
+		for _, num := range [][]byte{{0xff, 0xff, 0xff, 0x7f}, {0x00, 0x00, 0x00, 0x80, 0x00}, {0xff, 0xff, 0xff, 0xff, 0x7f}} {
+			emit((&Program{Unlock: []byte{}, Lock: catb(Push(num), []byte{0x8b, 0x8b, 0x75, 0x51}), Flags: fl, Kind: "limit-number"}).Fix())
+			emit((&Program{Unlock: []byte{}, Lock: catb(Push(num), Push(num), []byte{0x93, 0x8b, 0x75, 0x51}), Flags: fl, Kind: "limit-number"}).Fix())
+		}
+	}
+}
+
+func rep2(pat []byte, n int) []byte {
+	var out []byte
+	for i := 0; i < n; i++ {
+		out = append(out, pat...)
+	}
+	return out
+}
